@@ -18,7 +18,7 @@ pub const VOCAB: &[&str] = &[
     "a", "b", "foo", "\"q\"", "'r'", "`1`", "`\"s\"`", "`[1, 2]`", "@", "0", "1", "-1", "2", "2147483647", "-2147483647", "*", ".", "[", "]", "[]",
     "[?", "{", "}", "(", ")", ",", ":", "&", "&&", "|", "||", "!", "!=", "==", "<", "<=", ">", ">=", "length", "sort_by", "abs", "k", "\"\"", "''",
     "`{}`", "-2147483648", "2147483648", "-2147483649", "007", "-0", "-", "=", "`", "'", "\"", "?", "#", "é", "\\", "`1", "'x", "\"y", "-01", "- 1",
-    "99999999999999999999", "`tru`", "\"\\q\"", "\"\\u00e9\"", "'\\''", "`\"\\`\"`", "\t", "\n",
+    "99999999999999999999", "0000000000001", "00000000000000000000000000000000000000002", "`tru`", "\"\\q\"", "\"\\u00e9\"", "'\\''", "`\"\\`\"`", "\t", "\n",
 ];
 
 /// Index of the first lexeme in VOCAB that is "unusual" (invalid or extreme).
@@ -273,7 +273,25 @@ pub fn near_duplicate(text: &str, src: &mut Src) -> String {
         }
     };
     let mut out = cs.clone();
-    match src.below(7) {
+    match src.below(9) {
+        7 => {
+            // a character that some libraries call white space (but the grammar does not) at an end
+            let c = *src.pick(WS_LIKE);
+            if src.flip() {
+                out.push(c);
+            } else {
+                out.insert(0, c);
+            }
+        }
+        8 => {
+            // ... or between two tokens
+            let c = *src.pick(WS_LIKE);
+            if let Some(p) = pick_pos(src, &|i| !inside[i] && matches!(cs[i], '.' | '|' | ',' | ')' | ']' | '}' | '=' | '<' | '>' | ' ')) {
+                out.insert(p, c);
+            } else {
+                out.push(c);
+            }
+        }
         0 => {
             // double a space inside a quoted form
             if let Some(p) = pick_pos(src, &|i| inside[i] && cs[i] == ' ') {
@@ -328,6 +346,56 @@ pub fn near_duplicate(text: &str, src: &mut Src) -> String {
     out.into_iter().collect()
 }
 
+/// Characters that `char::is_whitespace`, `str::trim` or `split_whitespace`
+/// treat as blank although the grammar only knows space, tab, CR and LF
+/// (plus two invisible non-blanks).
+pub const WS_LIKE: &[char] = &[
+    '\u{a0}', '\u{b}', '\u{c}', '\u{85}', '\u{1680}', '\u{2003}', '\u{2028}', '\u{2029}', '\u{202f}', '\u{205f}', '\u{3000}', '\u{feff}', '\u{200b}', '\u{0}', '\u{1c}', '\u{1f}',
+];
+
+/// A text that is (very probably) not a sentence, failing at different stages:
+/// in the lexer after some tokens, in the parser, at the very first character.
+pub fn gen_failing_text(src: &mut Src, st: &mut Stats) -> String {
+    const LEX_FAIL: &[&str] = &["#", "=", "'abc", "\"abc", "`[1,", "`tru`", "99999999999", "-", "-0", "\"\\q\"", "\u{e9}", "\u{a0}", "`", "a = b", "$", "%"];
+    match src.below(4) {
+        0 => gen_soup(src),
+        1 => {
+            let a = gen_sentence(src, st, 2).unwrap_or_else(|| "a".into());
+            mutate(&a, "b[0]", src).0
+        }
+        _ => {
+            let a = gen_sentence(src, st, 2).unwrap_or_else(|| "a.b".into());
+            let glue = *src.pick(&[" ", " || ", " | ", ".", "", ", ", " == "]);
+            let tail = if src.flip() { gen_soup(src) } else { String::new() };
+            format!("{}{}{} {}", a, glue, src.pick(LEX_FAIL), tail)
+        }
+    }
+}
+
+/// Compile (and parse) a few failing texts on the current thread, ignoring
+/// the outcomes: whatever they leave behind must not influence the case that
+/// follows.  Returns the texts so that they become part of the replay file.
+pub fn disturb(src: &mut Src, st: &mut Stats) -> Vec<String> {
+    let mut out = vec![];
+    if !src.chance(64) {
+        return out;
+    }
+    for _ in 0..1 + src.below(3) {
+        let t = gen_failing_text(src, st);
+        replay_disturbance(&t);
+        out.push(t);
+    }
+    st.class("preceded-by-failing-compiles");
+    out
+}
+
+pub fn replay_disturbance(t: &str) {
+    let _ = crate::runner::catch(std::panic::AssertUnwindSafe(|| {
+        let _ = jmespath::parse(t);
+        let _ = jmespath::compile(t).map(|e| e.search(jmespath::Variable::Null).is_ok());
+    }));
+}
+
 /// Enumerated "repeat" family: prefix + unit x k + suffix for every k up to a
 /// bound.  Crosses every count-based threshold (64 / 256 operators, token
 /// windows, depth counters) at every alignment, deterministically.
@@ -365,5 +433,77 @@ pub fn repeat_counts(thorough: bool) -> Vec<usize> {
     if thorough {
         v.extend([2047, 2048, 2049, 4096, 4097]);
     }
+    v
+}
+
+/// Token alphabets for the exhaustive small-scope enumeration.
+pub const ENUM_WIDE: &[&str] = &["a", "*", "[", "]", ".", ",", "[?", "[]", ":", "0", "|", "&", "(", ")", "{", "}", "!", "==", "@", "'x'", "-1", "&&"];
+pub const ENUM_NARROW: &[&str] = &["a", "*", "[", "]", ".", ",", "[?", "[]", ":", "0", "|", "&"];
+
+/// Every sequence of exactly `len` tokens over `alphabet`, joined with and
+/// without blanks, is handed to `f`; the work is split over `threads` by the
+/// leading tokens.  Failures with a known-finding signature are only counted.
+pub fn enumerate_tokens<F>(alphabet: &[&str], len: usize, threads: usize, env: &crate::runner::Env, st: &mut Stats, f: F) -> Vec<Failure>
+where
+    F: Fn(&str, &mut Stats) -> Result<(), Failure> + Sync,
+{
+    let k = alphabet.len();
+    let total: u64 = (k as u64).pow(len as u32);
+    let next = std::sync::atomic::AtomicU64::new(0);
+    let chunk: u64 = 4096;
+    let fails: std::sync::Mutex<Vec<Failure>> = std::sync::Mutex::new(vec![]);
+    let merged: std::sync::Mutex<Vec<Stats>> = std::sync::Mutex::new(vec![]);
+    std::thread::scope(|sc| {
+        for _ in 0..threads {
+            sc.spawn(|| {
+                let mut local = Stats::new();
+                let mut idx = vec![0usize; len];
+                let mut spaced = String::new();
+                let mut tight = String::new();
+                loop {
+                    let start = next.fetch_add(chunk, std::sync::atomic::Ordering::Relaxed);
+                    if start >= total || fails.lock().unwrap().len() >= 10 {
+                        break;
+                    }
+                    for n in start..(start + chunk).min(total) {
+                        let mut x = n;
+                        for i in (0..len).rev() {
+                            idx[i] = (x % k as u64) as usize;
+                            x /= k as u64;
+                        }
+                        spaced.clear();
+                        tight.clear();
+                        for (i, t) in idx.iter().enumerate() {
+                            if i > 0 {
+                                spaced.push(' ');
+                            }
+                            spaced.push_str(alphabet[*t]);
+                            tight.push_str(alphabet[*t]);
+                        }
+                        for text in [&spaced, &tight] {
+                            local.eval();
+                            if let Err(fl) = f(text, &mut local) {
+                                if env.is_known(&fl.sig) {
+                                    *local.excluded_known.entry(fl.sig.clone()).or_insert(0) += 1;
+                                } else {
+                                    let mut g = fails.lock().unwrap();
+                                    if g.len() < 10 {
+                                        g.push(fl);
+                                    }
+                                }
+                            }
+                        }
+                    }
+                }
+                merged.lock().unwrap().push(local);
+            });
+        }
+    });
+    for s in merged.into_inner().unwrap() {
+        st.merge(s);
+    }
+    let mut v = fails.into_inner().unwrap();
+    // shortest text first: the smallest counterexample becomes the replay
+    v.sort_by_key(|f| f.case["expression"].as_str().map(|s| s.len()).unwrap_or(usize::MAX));
     v
 }
